@@ -356,8 +356,18 @@ func (g *Generator) AdjustOomScoreAdj(score *nri.OptionalInt) {
 
 // AdjustDevices adjusts the (Linux) devices in the OCI Spec.
 func (g *Generator) AdjustDevices(devices []*nri.LinuxDevice) {
+	set := map[string]struct{}{}
+	for _, d := range devices {
+		if key, marked := d.IsMarkedForRemoval(); !marked {
+			set[key] = struct{}{}
+		}
+	}
 	for _, d := range devices {
 		key, marked := d.IsMarkedForRemoval()
+		if _, ok := set[key]; ok && marked {
+			// a set wins over a removal of the same device whatever the list order
+			continue
+		}
 		g.RemoveDevice(key)
 		if marked {
 			continue
